@@ -76,7 +76,10 @@ Definition trunc_ok1 (o : tobs) (tab : list (vec_t * N)) (max : Z) (r : res tobs
   match fst r with
   | Ok o' => Z.leb (Z.of_N (snd r)) max && consistentb o o' &&
              (* nothing is cut when the observation fits *)
-             (if Z.leb (Z.of_N (size_tab tab o)) max then tobs_eqb o o' else true)
+             (if Z.leb (Z.of_N (size_tab tab o)) max then tobs_eqb o o' else true) &&
+             (* "if not even one report fits, an error is returned": a result that was cut still has a chain entry
+                (for observations without empty per-chain lists - all that the plugin builds - that is a report) *)
+             (tobs_eqb o o' || negb (Nat.eqb (length (t_commits o')) 0))
   | Err => Z.ltb max (Z.of_N (size_tab tab o))
   | _ => false
   end.
